@@ -21,7 +21,7 @@ def verify(mid):
     if rc: res['error']='worktree: '+out; return res
     try:
         meta=json.load(open(os.path.join(d,'meta.json')))
-        demo=open(os.path.join(d,'demo_test.go.txt')).read()
+        demo=open(os.path.join(d,'demo_test.go')).read()
         tests=re.findall(r'^func (Test\w+)\(', demo, re.M)
         race='-race' in meta.get('demo_cmd','')
         runre='^('+'|'.join(tests)+')$'
@@ -35,7 +35,7 @@ def verify(mid):
             rc,out=sh(f'git apply --3way {d}/patch.diff', wt)
         res['applies']=(rc==0)
         if rc: res['apply_out']=out; return res
-        rc,out=sh('go build ./... && go vet .', wt); res['builds']=(rc==0)
+        rc,out=sh('go build ./...', wt); res['builds']=(rc==0)
         if rc: res['build_out']=out
         rc,out=sh(democmd, wt, 300); res['demo_with_patch_fails']=(rc!=0); res['demo_with_out']=out[-800:]
         os.remove(os.path.join(wt,'zz_demo_test.go'))
@@ -52,6 +52,6 @@ def verify(mid):
     json.dump(res, open(os.path.join(d,'verified.json'),'w'), indent=1)
     return res
 ids=sys.argv[1:] or sorted(os.listdir(ROOT))
-with ThreadPoolExecutor(4) as ex:
+with ThreadPoolExecutor(5) as ex:
     for r in ex.map(verify, ids):
         print(r['id'], 'CONFIRMED' if r.get('confirmed') else 'NOT-CONFIRMED', {k:v for k,v in r.items() if k in('applies','builds','demo_with_patch_fails','demo_without_patch_passes','suite_pass_runs_of_3','error')}, flush=True)
